@@ -27,7 +27,7 @@ func isFreshSlice(v ssa.Value, seen map[ssa.Value]bool) bool {
 		// results of calls are owned by the caller by this repository's convention
 		// (bytes.Join, codec encoders, append): the callee has no other reference we can see.
 		if CalleeName(x.Common()) == "builtin:append" {
-			return isFreshSlice(x.Common().Args[0], seen)
+			return isFreshSlice(ArgK(x, 0), seen)
 		}
 		return true
 	case *ssa.Slice:
@@ -84,7 +84,7 @@ func checkFreshKeyBuffers(c *Ctx, rule string, scope []string) {
 			if CalleeName(cl.Common()) != "builtin:append" {
 				continue
 			}
-			sl, ok := cl.Common().Args[0].Type().Underlying().(*types.Slice)
+			sl, ok := ArgK(cl, 0).Type().Underlying().(*types.Slice)
 			if !ok {
 				continue
 			}
@@ -93,7 +93,7 @@ func checkFreshKeyBuffers(c *Ctx, rule string, scope []string) {
 			}
 			ord++
 			n++
-			base := cl.Common().Args[0]
+			base := ArgK(cl, 0)
 			fresh := isFreshSlice(base, map[ssa.Value]bool{})
 			ok2 := fresh
 			detail := ""
@@ -400,12 +400,12 @@ func checkExposedSliceImmutable(c *Ctx, rule, owner, field string, methods []*ss
 						bad = append(bad, FuncKey(fn)+" stores into an element at "+p.InstrPos(x))
 					}
 				case *ssa.Call:
-					if CalleeName(x.Common()) == "builtin:copy" && derivedFromField(x.Common().Args[0], owner, field, 0) {
+					if CalleeName(x.Common()) == "builtin:copy" && derivedFromField(ArgK(x, 0), owner, field, 0) {
 						bad = append(bad, FuncKey(fn)+" copies into it at "+p.InstrPos(x))
 					}
 					if CalleeName(x.Common()) == "builtin:append" {
 						// append(field[:k], …) overwrites elements k… of the shared array
-						if sl, ok := stripConv(x.Common().Args[0]).(*ssa.Slice); ok && sl.High != nil && derivedFromField(sl.X, owner, field, 0) {
+						if sl, ok := stripConv(ArgK(x, 0)).(*ssa.Slice); ok && sl.High != nil && derivedFromField(sl.X, owner, field, 0) {
 							bad = append(bad, FuncKey(fn)+" appends onto a shortened view of it at "+p.InstrPos(x))
 						}
 					}
